@@ -173,13 +173,15 @@ func (c *Conn) WriteRaw(b []byte) error {
 
 // ReadMsg reads one message (response or event).
 // Timeouts counts the reads that ran into their timeout. A server that does not answer any more makes every following
-// read wait in vain: after ten of them the remaining reads of the process wait for 300 ms only (the verdict is there).
+// read wait in vain: after twenty of them the remaining reads of the process wait for one second only (the verdict is
+// there). Waits that are EXPECTED to end in a timeout (ReadMsgWithin) are not counted: on a loaded machine an answer may
+// well take a few hundred milliseconds.
 var Timeouts int64
 
 func (c *Conn) ReadMsg() (m *Msg, err error) {
 	to := c.Timeout
-	if atomic.LoadInt64(&Timeouts) > 10 && to > 300*time.Millisecond {
-		to = 300 * time.Millisecond
+	if atomic.LoadInt64(&Timeouts) > 20 && to > time.Second {
+		to = time.Second
 	}
 	defer func() {
 		if ne, ok := err.(net.Error); ok && ne.Timeout() {
@@ -188,6 +190,9 @@ func (c *Conn) ReadMsg() (m *Msg, err error) {
 	}()
 	return c.readMsg(to)
 }
+
+// ReadMsgWithin waits for a message for d; running into the timeout is an expected outcome and not counted.
+func (c *Conn) ReadMsgWithin(d time.Duration) (*Msg, error) { return c.readMsg(d) }
 
 func (c *Conn) readMsg(timeout time.Duration) (*Msg, error) {
 	c.C.SetReadDeadline(time.Now().Add(timeout))
